@@ -776,6 +776,7 @@ class FnText:
         self.fired = []
         self.attrs = it.attrs
         self.name = selector
+        self.repo, self.impl_re, self.nth = repo, impl_re, nth    # (R30 re-runs the R11 guards on the same fn)
 
 
 def _binders(src, lo, hi):
@@ -816,8 +817,9 @@ class ArmText:
     `let` / `while let` / `if let` / `for` bindings of the enclosing blocks) occurs in the arm."""
 
     def __init__(self, repo, rel, selector, pattern, name, params, security=False, impl_re=None, nth=None,
-                 ret=None, outer_ok=None):
+                 ret=None, outer_ok=None, selfalias=None):
         # `ret="<type>"` / `outer="p1,p2"` (added for unit `sec_attrs`): see the two R11x comments below
+        # `selfalias=<name>` (added for unit `discovery_glue`): see the R11y comment below
         self.rel, self.selector = rel, selector
         src = load_src(repo, rel)
         it = find_fn(src, selector, security, impl_re, nth)
@@ -870,6 +872,7 @@ class ArmText:
             elif depth_start and psrc.t(j).kind == 'ident' and s not in ('mut',):
                 pnames.append(s); depth_start = False
             j += 1
+        self.pnames = list(pnames)      # (R30 builds the call `self.<name>(<pnames>)` from it)
         binders = _binders(src, p0, arrow)
         for pn in pnames:
             if pn != 'self' and pn not in binders and pn not in outer_ok:
@@ -966,9 +969,66 @@ class ArmText:
                 gen = [p_ for p_ in gen_params if p_ and p_[0] == on]
                 if len(decl) != 1 or len(gen) != 1 or [x for x in decl[0] if x != 'mut'] != gen[0]:
                     raise Undecided('unsupported-construct', 'R11: outer=%s: params= must repeat the declaration of %s in %s' % (on, on, selector))
+        # R11z (unit writer_push): a name of the enclosing function that the arm RE-BINDS itself
+        # (`if let Some(cc) = .. { .. cc .. }` under `while let Ok(cc) = ..`) is the arm's own local
+        # inside the scope of that binding: `if let` / `while let` PAT = E BLOCK -> PAT and BLOCK (not E);
+        # `let PAT [: T] = E;` -> PAT and the rest of the enclosing block after the `;`.  Occurrences
+        # there are not uses of the outer local; everything else is still refused.
+        inner = {}
+        for q in range(ob + 1, cb):
+            if src.s(q) != 'let':
+                continue
+            e = q + 1
+            dd = 0
+            while e < cb and not (dd == 0 and src.s(e) in ('=', ';', ':')):
+                if src.s(e) in rscan.OPEN: dd += 1
+                elif src.s(e) in rscan.CLOSE: dd -= 1
+                e += 1
+            names = [n_ for n_ in _binders(src, q + 1, e) if n_ in outer]
+            if not names:
+                continue
+            scope = None
+            if src.s(q - 1) in ('if', 'while'):
+                z = e
+                while z < cb and src.s(z) != '{':
+                    z = src.match[z] + 1 if src.s(z) in rscan.OPEN else z + 1
+                if z < cb:
+                    scope = (z, src.match[z])
+            else:
+                z = e
+                while z < cb and src.s(z) != ';':
+                    z = src.match[z] + 1 if src.s(z) in rscan.OPEN else z + 1
+                o = q - 1
+                while o > ob and src.s(o) != '{':
+                    o = src.match[o] - 1 if src.s(o) in rscan.CLOSE else o - 1
+                if z < cb and src.s(o) == '{':
+                    scope = (z, src.match[o])
+            if scope is not None:
+                for n_ in names:
+                    inner.setdefault(n_, []).extend([(q + 1, e), scope])
+        if selfalias:
+            # R11y (unit discovery_glue): `selfalias=<name>` — a local of the enclosing function that is
+            # nothing but another name for `self` (`let [mut] <name> = self;`, DPEventLoop::event_loop:
+            # `let mut ev_wrapper = self;`).  The generated function starts with `let <name> = self;`.
+            # Checked (else UNDECIDED): exactly one such `let` in the enclosing function, before the arm;
+            # <name> is never assigned again (`<name> =`), never re-bound, and not a binding of the arm.
+            lets = [q for q in range(it.open_si + 1, it.end_si - 4)
+                    if src.s(q) == 'let' and (
+                        (src.s(q + 1) == selfalias and src.s(q + 2) == '=' and src.s(q + 3) == 'self' and src.s(q + 4) == ';')
+                        or (src.s(q + 1) == 'mut' and src.s(q + 2) == selfalias and src.s(q + 3) == '=' and src.s(q + 4) == 'self' and src.s(q + 5) == ';'))]
+            if len(lets) != 1 or lets[0] > p0 or selfalias in binders:
+                raise Undecided('unsupported-construct', 'R11: selfalias=%s is not a unique `let [mut] %s = self;` before the arm in %s' % (selfalias, selfalias, selector))
+            for q in range(it.open_si + 1, it.end_si):
+                if src.t(q).kind == 'ident' and src.s(q) == selfalias and q not in (lets[0] + 1, lets[0] + 2):
+                    if src.s(q + 1) == '=' or src.s(q - 1) in ('let', 'mut', 'ref'):
+                        raise Undecided('unsupported-construct', 'R11: selfalias=%s is assigned or re-bound in %s' % (selfalias, selector))
         for i in range(ob + 1, cb):
             t = src.t(i)
             if t.kind == 'ident' and t.s in outer_ok and t.s not in binders:
+                continue
+            if selfalias and t.kind == 'ident' and t.s == selfalias:
+                continue
+            if t.kind == 'ident' and any(lo_ <= i < hi_ for (lo_, hi_) in inner.get(t.s, ())):
                 continue
             if t.kind == 'ident' and t.s in outer and t.s not in binders \
                     and src.s(i - 1) not in ('.', '::') and src.s(i + 1) != '::':
@@ -979,6 +1039,8 @@ class ArmText:
             hdr = 'fn %s(%s) -> %s ' % (name, ' '.join(params.split()), ' '.join(ret.split()))
         if expr_arm:
             self.orig = hdr + '{ ' + src.text[a:b] + ' }'
+        elif selfalias:
+            self.orig = hdr + '{ let ' + selfalias + ' = self; ' + src.text[a:b] + ' }'   # R11y
         else:
             self.orig = hdr + src.text[a:b]
         self.orig_plain = hdr + src.text[a:b]
@@ -987,9 +1049,82 @@ class ArmText:
         self.arm_first_line = src.line_of(src.t(p0).pos)
         self.sha = hashlib.sha256(src.text[src.t(p0).pos:b].encode()).hexdigest()
         self.fired = [('R11', self.arm_first_line, 'match arm `%s` of %s cut into `%s`' % (' '.join(ptoks), selector, hdr.strip()))]
+        if selfalias:
+            self.fired.append(('R11y', self.arm_first_line, 'local `%s` of %s is an alias of self: `let %s = self;` prepended' % (selfalias, selector, selfalias)))
         self.attrs = it.attrs
         owner = selector.rsplit('::', 1)[0] if '::' in selector else ''
         self.name = (owner.split(' for ')[-1].strip() + '::' if owner else '') + name
+
+
+def rw_arm_call(text, arg, fired, ft, security):
+    """R30 (added for unit `writer_push`; sub-directive
+        @@arm_call "<arm pattern tokens>" <callee> params="<param list text>" [nondet=<fn>]
+    of `@@extract fn`), the inverse of R11: in the function being extracted the block of the match arm
+    with that pattern is replaced by a call of the function R11 cuts from exactly that arm,
+        PAT => { self.<callee>(<the parameters other than self, in params= order>); }
+    so that the loop / dispatch AROUND the arms can be put under contract using the arms' contracts.
+    Guards (else UNDECIDED): every guard of R11 for this arm with these params, re-run on the file (the
+    arm body is a block that uses nothing of the enclosing function but `self` and the bindings of the
+    pattern, each binding is a parameter and vice versa) - under them executing the block IS calling
+    the generated function with the bindings; `self` is a parameter; no `break` / `continue` / `?` /
+    `await` / `yield` in the arm.  A `return` in the arm must be a plain `return;` of a function without
+    return type and needs `nondet=<fn>`: the call is then followed by `if <fn>() { return; }` (<fn>: a
+    stub returning an unconstrained bool).  That OVER-approximates the original: a run in which the arm
+    executes `return;` is the run in which the generated function returns at that statement (same
+    state) and <fn>() yields true; in every other run the arm ran to its end and <fn>() yields false.
+    The additional runs (early return although the arm ran to its end) only make contracts harder to
+    prove."""
+    try:
+        parts = shlex.split(arg)
+    except ValueError:
+        raise Undecided('lost-anchor', 'bad arm_call syntax %r' % arg)
+    if len(parts) < 3 or any('=' not in p for p in parts[2:]):
+        raise Undecided('unsupported-construct', 'arm_call needs: "<pattern>" <callee> params="..." [nondet=<fn>]')
+    pattern, callee = parts[0], parts[1]
+    kv = dict(p.split('=', 1) for p in parts[2:])
+    if 'params' not in kv or not re.fullmatch(r'[A-Za-z_][A-Za-z0-9_]*', callee) \
+            or not re.fullmatch(r'[A-Za-z_][A-Za-z0-9_]*', kv.get('nondet', 'x')):
+        raise Undecided('unsupported-construct', 'arm_call needs: "<pattern>" <callee> params="..." [nondet=<fn>]')
+    arm = ArmText(ft.repo, ft.rel, ft.selector, pattern, callee, kv['params'], security, ft.impl_re, ft.nth)   # the R11 guards
+    if 'self' not in arm.pnames:
+        raise Undecided('unsupported-construct', 'R30: params= of %s has no self' % callee)
+    src = Src(text)
+    fn_si = next(i for i in range(src.n()) if src.s(i) == 'fn')
+    fob = rscan.find_block_open(src, fn_si)
+    fcb = src.match[fob]
+    ptoks = norm_tokens(pattern)
+    if ptoks and ptoks[-1] == '=>':
+        ptoks = ptoks[:-1]
+    needle = ' '.join(ptoks + ['=>'])
+    hit = find_token_seq(src, fob + 1, fcb, needle, 1)
+    if hit is None or find_token_seq(src, fob + 1, fcb, needle, 2) is not None:
+        raise Undecided('lost-anchor', 'R30: arm %r not found / not unique in %s' % (pattern, ft.name))
+    ob = hit[1] + 1
+    if src.s(ob) != '{' or src.s(hit[0] - 1) not in ('{', ',', '}'):
+        raise Undecided('unsupported-construct', 'R30: arm %r of %s: body is not a block' % (pattern, ft.name))
+    cb = src.match[ob]
+    has_return = False
+    for q in range(ob + 1, cb):
+        s = src.s(q)
+        if s in ('break', 'continue', '?', 'await', 'yield'):
+            raise Undecided('unsupported-construct', 'R30: `%s` inside arm %r of %s' % (s, pattern, ft.name))
+        if s == 'return':
+            if src.s(q + 1) != ';':
+                raise Undecided('unsupported-construct', 'R30: `return <value>` inside arm %r of %s' % (pattern, ft.name))
+            has_return = True
+    if has_return:
+        p_open = fn_si + 2
+        if src.s(p_open) == '<':
+            p_open = src.skip_generics(p_open)
+        if src.s(p_open) != '(' or src.s(src.match[p_open] + 1) == '->' or 'nondet' not in kv:
+            raise Undecided('unsupported-construct', 'R30: arm %r of %s has a `return;`: needs nondet=<fn> and a function without return type'
+                            % (pattern, ft.name))
+    args = ', '.join(n for n in arm.pnames if n != 'self')
+    call = '{ self.%s(%s); %s}' % (callee, args, ('if %s() { return; } ' % kv['nondet']) if has_return else '')
+    a, b = src.t(ob).pos, src.t(cb).end
+    fired.append(('R30', src.line_of(src.t(hit[0]).pos), 'match arm `%s` -> call of the function R11 cuts from it: `self.%s(%s)`%s'
+                  % (' '.join(ptoks), callee, args, ' + nondeterministic `return;`' if has_return else '')))
+    return text[:a] + call + keep_newlines(text[a:b]) + text[b:]
 
 
 def loops_in(src, lo, hi):
@@ -1269,6 +1404,9 @@ def splice_function(ft, directives, security=False):
             # R26: `@@filter_map_loop k`
             text = rw_filter_map_loop(text, int(d.arg.split()[0]) if d.arg.strip() else 1, fired, ft.name,
                                       d.arg.split(None, 1)[1].strip() if len(d.arg.split(None, 1)) > 1 else '')
+    for d in directives:
+        if d.kind == 'arm_call':
+            text = rw_arm_call(text, d.arg, fired, ft, security)   # R30 (unit writer_push)
     if any(d.kind == 'mut_self' for d in directives):
         text = rw_mut_self(text, fired, ft.name)
     for d in directives:
@@ -1521,6 +1659,19 @@ def splice_function(ft, directives, security=False):
         if d.kind in ('loop', 'before_loop', 'after_loop', 'loop_body_start', 'loop_body_end'):
             k, lp = loop_k(d)
             per_loop.setdefault(k, {}).setdefault(d.kind, []).append(d)
+        elif d.kind in ('loop_opt', 'before_loop_opt', 'after_loop_opt', 'loop_body_start_opt', 'loop_body_end_opt'):
+            # (added for unit `datareader_api`) `@@loop_opt k` etc.: as `@@loop k` .., but skipped (not
+            # UNDECIDED) when the function has fewer than k loops — like the *_opt hint anchors and
+            # `@@closure k opt`: the clauses concerned a loop that is not there; the function's
+            # contract is unaffected and is then checked on the loop-free text
+            try:
+                k_o = int(d.arg.split()[0])
+            except Exception:
+                raise Undecided('lost-anchor', 'bad loop ordinal in %s' % d.kind)
+            if not (1 <= k_o <= len(lps)):
+                fired.append(('note', 0, 'optional loop annotation %d: loop absent, skipped' % k_o))
+                continue
+            per_loop.setdefault(k_o, {}).setdefault(d.kind[:-4], []).append(d)
     for k in set(list(per_loop.keys()) + list(desugared.keys())):
         kw, lab, lob, lcb, kind = lps[k - 1]
         dd = per_loop.get(k, {})
@@ -2274,8 +2425,22 @@ def build_unit(verif_root, repo, unit, security=None, force_degrade=None):
                             raise Undecided('unsupported-construct', '%s: @@extract arm needs <file> <fn> "<pattern>" as= params=' % relpath)
                         ft = ArmText(repo, rel, sel, pos[3], kv['as'], kv['params'], sec, kv.get('impl'),
                                      int(kv['nth']) if 'nth' in kv else None, **({'ret': kv.get('ret'), 'outer_ok': kv.get('outer')}
-                                                                                 if ('ret' in kv or 'outer' in kv) else {}))
-                        lines = splice_function(ft, ds, sec)
+                                                                                 if ('ret' in kv or 'outer' in kv) else {}),
+                                     **({'selfalias': kv['selfalias']} if 'selfalias' in kv else {}))
+                        # (unit discovery_glue) graceful degradation also for a generated arm function: a lost
+                        # body anchor / front-end error inside ONE arm drops that arm's body only (as for fns below)
+                        try:
+                            if ft.name in force_degrade:
+                                raise Undecided('unsupported-construct', force_degrade[ft.name])
+                            lines = splice_function(ft, ds, sec)
+                        except Undecided as e_fn:
+                            if os.environ.get('VERIF_NO_DEGRADE'):
+                                raise
+                            try:
+                                lines = degrade_function(ft, ds, sec)
+                            except (Undecided, StopIteration, KeyError, IndexError):
+                                raise e_fn
+                            degraded[ft.name] = '%s: %s' % (e_fn.reason, e_fn.detail)
                         out_lines.extend(lines)
                         record.append({'item': 'fn ' + ft.name, 'file': rel, 'lines': [ft.arm_first_line, ft.last_line],
                                        'sha256': ft.sha, 'rewrites': [list(f) for f in ft.fired], 'arm_of': sel,
@@ -2377,6 +2542,10 @@ def build_unit(verif_root, repo, unit, security=None, force_degrade=None):
 
     process(tpath)
     bdir = os.path.join(verif_root, 'build')
+    if os.path.realpath(repo) != '/repo':
+        # a run against a scratch copy (VERIF_REPO, mutants / seeds) must not overwrite build/<unit>.rs
+        # while a concurrent run on the real tree is reading it (same file name = same Verus crate name)
+        bdir = os.path.join(bdir, 'scratch-units', hashlib.sha256(os.path.realpath(repo).encode()).hexdigest()[:12])
     os.makedirs(bdir, exist_ok=True)
     opath = os.path.join(bdir, unit + '.rs')
     with open(opath, 'w') as f:
